@@ -93,6 +93,7 @@ def _swarm_feat(cfg):
     f["rtcalls"] = cfg.random() < 0.6
     f["rec_builtin"] = cfg.random() < 0.4
     f["joins"] = cfg.random() < 0.4
+    f["lazy"] = cfg.random() < 0.12
     f["phelpers"] = cfg.random() < 0.2
     f["pathspell"] = cfg.random() < 0.15
     f["shadows"] = cfg.random() < 0.3
@@ -219,6 +220,10 @@ def gen_program(rng, feat):
                 if cands:
                     f = funcs[rng.choice(cands)]
                     f["body"].insert(rng.randrange(len(f["body"]) + 1), {"t": "shadow", "name": v})
+    if feat.get("lazy"):
+        for fn in names:
+            if funcs[fn]["kind"] != "class" and rng.random() < 0.3:
+                funcs[fn]["body"].insert(rng.randrange(len(funcs[fn]["body"]) + 1), {"t": "lazy"})
     if feat.get("loads"):
         _add_loads(prog, rng, feat)
     _fix_rt_refs(prog, rng, feat)
@@ -611,6 +616,8 @@ def gen_edit(rng, prog, kinds):
                 fn, i, j = rng.choice(ml if ml and rng.random() < 0.5 else sites)
                 cur = prog["funcs"][fn]["body"][i]["args"][j].get("x")
                 return {"kind": "rtx", "f": fn, "item": i, "arg": j, "value": rng.choice([x for x in [2, 3, 5, 8] if x != cur])}
+        if k == "lzver" and ir.has_lazy(prog):
+            return {"kind": "lzver"}
         if k == "addload":
             # a dds.load statement appears in a function: of any other path of the program, or of the very path the
             # function is kept at (an evaluation that reads what it is about to produce)
@@ -731,6 +738,8 @@ def apply_edit(prog, e):
             a = p["funcs"][e["f"]]["body"][e["item"]]["args"][e["arg"]]
             if a["k"] in ("rt", "kwrt"):
                 a["x"] = e["value"]
+        elif k == "lzver":
+            p.setdefault("ext", {})["lz_ver"] = p.get("ext", {}).get("lz_ver", 1) + 1
         elif k == "addload":
             f = p["funcs"][e["f"]]
             if e.get("front"):
